@@ -9,18 +9,18 @@ Section Proofs.
   Variable max_line : N.
 
   Notation preload_line := (preload_line Ev parse_evt parse_json).
-  Notation parse_line := (parse_line Ev parse_evt parse_json).
+  Notation file_line := (file_line Ev parse_evt parse_json).
   Notation preload_go := (preload_go Ev parse_evt parse_json).
   Notation stream_go := (stream_go Ev parse_evt parse_json max_line).
 
-  (* what parse_line keeps of one iteration of the preload loop *)
+  (* what file_line keeps of one iteration of the preload loop *)
   Definition forget (r : N * option (N * Ev)) : option Ev :=
     match snd r with Some te => Some (snd te) | None => None end.
 
-  Lemma parse_line_preload_line : forall cur seg,
-    parse_line seg = omap forget (preload_line cur (strip_eol seg)).
+  Lemma file_line_preload_line : forall cur seg,
+    file_line seg = omap forget (preload_line cur (strip_eol seg)).
   Proof.
-    intros cur seg. unfold EventFile.parse_line, EventFile.preload_line.
+    intros cur seg. unfold EventFile.file_line, EventFile.preload_line.
     rewrite trim_strip_eol.
     destruct (is_skip (trim seg)); [reflexivity|].
     destruct (starts_with (s2l "BATCH") (trim seg)).
@@ -39,7 +39,7 @@ Section Proofs.
     - cbn [omap]. now rewrite map_rev.
     - inv Hlim.
       assert (Hs : (max_line <? utf8_len s) = false) by (apply N.ltb_ge; assumption).
-      rewrite Hs, (parse_line_preload_line cur s).
+      rewrite Hs, (file_line_preload_line cur s).
       destruct (preload_line cur (strip_eol s)) as [[cur' [[off e]|]]| |]; cbn [omap forget snd].
       + apply (IH cur' ((off, e) :: acc)). assumption.
       + apply IH. assumption.
